@@ -17,7 +17,7 @@ from .. import sleeplog
 from ..vloop import VLoop
 from .client import make_client
 
-C1, C2, CU = 2001, 2002, 2999
+C1, C2, CU = 2001, -32050, 2999          # C2 lies in the range reserved for implementation-defined server errors (-32099..-32000)
 
 
 class E1(Exception):
